@@ -47,3 +47,69 @@ def run(payload):
             r['error'] = exc_info(e)
         out.append(r)
     return dict(results=out)
+
+
+def front(payload):
+    """The command line in front of the geometry layer: the same objects, tapers, keyed transformations (given in their
+    UNSORTED order, keys spelled so that text order and numeric order differ) and scalings through main() must give the
+    segments the documented API calls give (which stage `geom` ties to the model)."""
+    from mininec import mininec as M
+    import io
+    out = []
+    for case in payload['cases']:
+        r = dict(id=case['id'])
+        try:
+            spec = case['spec']
+            r['spec'] = spec
+            rng = random.Random(case.get('seed', 0))
+            # API path, as in run() above
+            geo = []
+            for w in spec['wires']:
+                if w['type'] == 'wire':
+                    g = M.Wire(w['nseg'], *w['p1'], *w['p2'], w['r'], tag=w.get('tag'))
+                    if w.get('taper'):
+                        g.segtype = w['taper'][0]; g.taper_min = w['taper'][1]; g.taper_max = w['taper'][2]
+                elif w['type'] == 'arc':
+                    g = M.Arc(w['nseg'], w['radius'], w['ang1'], w['ang2'], w['r'], tag=w.get('tag'))
+                else:
+                    g = M.Helix(w['nseg'], w['length'], w['turnlen'], w['r'], w['rx1'], w['ry1'], w.get('rx2'), w.get('ry2'), tag=w.get('tag'))
+                geo.append(g)
+            cont = M.Geo_Container(None, geo)
+            cont.compute_tags()
+            # numeric key order; among equal keys the option parser hands over all rotations before all translations, each
+            # kind in the order given (the order of equal keys is not documented: this is what main does)
+            given = spec.get('transforms_unsorted', spec.get('transforms', []))
+            coll = [t for t in given if t['op'] == 'rotate'] + [t for t in given if t['op'] != 'rotate']
+            for t in sorted(coll, key=lambda t: float(t['key'])):
+                (cont.rotate if t['op'] == 'rotate' else cont.translate)(t['key'], np.array(t['v']), t.get('tag'))
+            for t in spec.get('scales', []):
+                cont.scale(t['factor'], t.get('tag'))
+            api = []
+            for g in cont.geo:
+                g.compute_segments()
+                api.append([[float(v) for v in s.p1] + [float(v) for v in s.p2] for s in g.segments])
+            # command-line path: keys respelled (10 -> '1e1', 5 -> '5.0', ...) and options in the unsorted order
+            def spell(k):
+                k = float(k)
+                return rng.choice([repr(k), '%g' % k, '%.1f' % k, ('%e' % k)])
+            tr = [dict(t, keytext=spell(t['key'])) for t in spec.get('transforms_unsorted', spec.get('transforms', []))]
+            argv = gen.to_argv(dict(spec, sources=[], loads=[]), transforms=tr)
+            err = io.StringIO()
+            m = M.main(argv, f_err=err, return_mininec=True)
+            if isinstance(m, int):
+                r['skipped'] = True; r['why'] = err.getvalue()[:200]; out.append(r); continue
+            cli = [[[float(v) for v in s.p1] + [float(v) for v in s.p2] for s in g.segments] for g in m.geo]
+            bad = []
+            if len(cli) != len(api) or any(len(a) != len(b) for a, b in zip(api, cli)):
+                bad.append('command line gives %r segments per object, the API calls %r' % ([len(x) for x in cli], [len(x) for x in api]))
+            else:
+                sc = max([abs(v) for o in api for s_ in o for v in s_] + [1e-30])
+                dev = max([abs(x - y) for a, b in zip(api, cli) for s1, s2 in zip(a, b) for x, y in zip(s1, s2)] + [0.0])
+                if dev > 1e-12 * sc:
+                    bad.append('segments through the command line are up to %.3g away from the documented construction (tapers, transformations in '
+                               'numeric key order, then scaling): %r' % (dev, [a for a in argv if a.startswith(('--geo', '--taper'))]))
+            r['bad'] = bad; r['ntrans'] = len(tr); r['nscale'] = len(spec.get('scales', []))
+        except Exception as e:
+            r['error'] = exc_info(e)
+        out.append(r)
+    return dict(results=out)
